@@ -1,4 +1,5 @@
 import Dtr.Model.RowIter
+import Dtr.Model.AfterError
 import Dtr.Model.Dig
 /-!
 # Line-protocol driver of the executable model (`lean_exe dtr_model`)
@@ -224,23 +225,23 @@ partial def exprHasRandom : Expr → Bool
   | .call f args => f == "random" || args.any exprHasRandom
 
 /-- Items of a run.  Up to and including the first error item this is what every comparison uses.  Behind a
-`posterr` marker the run is continued while the error items come from the IO step (a call was made) — the
-state the model returns for those is the code's — up to five error items in all; it stops at the first
-evaluation error (no call), and, when a virtual signal draws random numbers, at the first error found in an
-answer (the generator state after a partly evaluated answer is not modelled). -/
+`posterr` marker the run is continued behind every error item — the state `RowIt.nextC` returns there is the one
+the code is left in (`Model/AfterError`): behind an error of the IO step, behind an evaluation error (the failing
+statement is skipped, a failing `while` condition is tried again), with the generator advanced by the draws that
+were made before the failure — up to five error items in all. -/
 partial def runItems (ownWo : Bool) (tc : TestCase) (drv : Driver (List DrvResp)) (cap : Nat) (k : Nat) (s : RowIt) (d : List DrvResp)
     (nErr : Nat) (virtRandom : Bool) (acc : Array String) : Array String :=
   if k ≥ cap then acc.push ("item " ++ toString k ++ " cap")
   else
-    match s.next tc drv 200000 d with
+    match s.nextC tc drv 200000 d with
     | .panic m calls =>
       let acc := calls.foldl (fun a c => a.push (callLine ownWo tc c)) acc
       acc.push ("item " ++ toString k ++ " panic " ++ m)
     | .fuel => acc.push ("item " ++ toString k ++ " fuel")
     | .none s' d' =>
       -- `None` must be sticky and silent: ask twice more
-      let again := match s'.next tc drv 200000 d' with
-        | .none s'' d'' => (match s''.next tc drv 200000 d'' with | .none _ _ => true | _ => false)
+      let again := match s'.nextC tc drv 200000 d' with
+        | .none s'' d'' => (match s''.nextC tc drv 200000 d'' with | .none _ _ => true | _ => false)
         | _ => false
       (acc.push ("item " ++ toString k ++ " none" ++ (if again then "" else " NOT-STICKY"))).push
         ("rng draws=" ++ toString s'.ctx.rng.total)
@@ -248,8 +249,7 @@ partial def runItems (ownWo : Bool) (tc : TestCase) (drv : Driver (List DrvResp)
       let acc := calls.foldl (fun a c => a.push (callLine ownWo tc c)) acc
       let acc := (acc.push ("item " ++ toString k ++ " err " ++ errClass e)).push ("# " ++ errDetail e)
       let acc := if nErr == 0 then acc.push "posterr" else acc
-      let isDriver := match e with | .driver _ => true | _ => false
-      if calls.isEmpty || nErr + 1 ≥ 5 || (!isDriver && virtRandom) then acc
+      if nErr + 1 ≥ 5 then acc
       else runItems ownWo tc drv cap (k + 1) s' d' (nErr + 1) virtRandom acc
     | .item (.row r) s' d' calls =>
       let acc := calls.foldl (fun a c => a.push (callLine ownWo tc c)) acc
